@@ -83,7 +83,7 @@ def run(ck):
     if not fails and (corr or not ck.proof["ok"]):
         ck.violation(("correspondence broken on %d cases, e.g. %s" % (len(corr), corr[0][2][:120])) if corr else "proof obligation no longer checks: %s" % ck.proof["broken"],
                      {"examples": [c[2] for c in corr[:5]], "broken_obligation": ck.proof.get("broken")}, tag="correspondence", no_input=True)
-    return ck.finish(trusted=["coqc 8.16.1 kernel", "extraction + driver.ml", "generated h_expr harness (13 comparison shapes, poly and poly_p, 3 back ends)", "translator"],
+    return ck.finish(trusted=["coqc 8.16.1 kernel", "extraction + driver.ml", "generated h_expr harness (13 comparison shapes, poly and poly_p, 3 back ends)", "source readers: tools/dump_params (tables), cxxloop2coq.py (poly::operator bool), cxxexprbool2coq.py (expr::operator bool)"],
                      extra_cov={"params_sha": info})
 
 def replay(ck, rec):
